@@ -7,7 +7,7 @@ THEOREMS = ["Slock.C01.reachable_inv", "Slock.C01.doLock_sound", "Slock.C01.admi
             "Slock.C01.reachable_U3", "Slock.C01.C01_uniform_count", "Slock.C01.C01_uniform_count_prefix", "Slock.C01.C01_mutex", "Slock.C01.uniformCount_spec"]
 FINISH = {"level": "proof", "assumptions": [
     "M-ENGINE is hand-written; it is tied to server/db.go + server/lock.go by the E-seq differential run (real LockDB, virtual clock) and by the regenerated constants (consts_match)",
-    "granularity: one model step = one shard-mutex critical section; Go scheduling below that is not modelled",
+    "granularity: one model step = one shard-mutex critical section; Go scheduling below that is not modelled — except for ONE forced schedule (harness mode `parked`, monitors only): a LOCK waits for the shard mutex while the holder of the mutex recycles the key's idle record",
     "value frames, require-ack, millisecond timers are outside stage 1 of the model (generator does not emit them)"]}
 
 
